@@ -254,7 +254,9 @@ def run(p, led, tier):
                         cls = "permitted → success recorder"
                         if ns != 1 or nf:
                             prob = f"success recorder ran {ns}×, failure recorder {nf}×"
-                    elif f.get("success") is True and f.get("blocked") is True:
+                    elif f.get("blocked") is True and z != "FAILURE":
+                        # blocked by the verdicts alone (no executor failure, no exception), whatever the gate logic and
+                        # whatever the result's success flag says
                         cls = "intentional block → no recorder"
                         if nf or ns:
                             prob = f"{'failure' if nf else 'success'} recorder ran"
@@ -279,6 +281,48 @@ def run(p, led, tier):
         else:
             led.ok("C08-R3", key, where(runm, runm.node), f"{d['cells']} cell-path(s) over {len(G)} gates × {len(alpha) + 1}² verdict pairs", nontrivial=not cls.startswith("other"))
     led.extra["executor_failure_cells"] = n_fail_cells
+
+    # ---------------- R6 after an admitted probe the breaker is never left half-open and refusing
+    led.rule("C08-R6", "whatever the outcome of an admitted probe (success, intentional block, executor failure, agent exception, cache hit), the next request is consulted unless the breaker is OPEN again", 1)
+    runm_ = p.find_method(L, "run")
+    kinds = {"success": ("EXECUTE", "PERMIT"), "intentional block": ("BLOCK", "BLOCK"), "executor failure": ("FAILURE", "PERMIT"), "agent exception": (EXC, "PERMIT"), "cache hit": ("EXECUTE", "PERMIT")}
+    bad6, n6 = [], 0
+    for kind, verdicts in kinds.items():
+        for g in G:
+            def go6(o, _kind=kind, _v=verdicts, _g=g):
+                it, obj = h.build(o, _g, True, True, "CLOSED", _v)
+                p1, p2 = "prompt one", "prompt two"
+                if _kind == "cache hit":
+                    it.call_fi(runm_, [obj, p1], {})          # leaves a cached reply for prompt_one
+                obj.fields[h.names.state] = it.enum_member(h.cstate, "OPEN")
+                out = []
+                for pr in (p1, p2):
+                    mark = len(it.events)
+                    try:
+                        r = it.call_fi(runm_, [obj, pr], {})
+                        ev = it.events[mark:]
+                        out.append(dict(consulted=any(e[0] == "express" for e in ev), refused=(isinstance(r, Obj) and "CIRCUIT" in repr(r.fields.get("block_reason", "")).upper()), cached=(h.CALL.get("cache") in ev and not any(e[0] == "express" for e in ev) and not (isinstance(r, Obj) and "CIRCUIT" in repr(r.fields.get("block_reason", "")).upper())),
+                                        state=sname(obj.fields[h.names.state]), reason=repr(r.fields.get("block_reason")) if isinstance(r, Obj) else None))
+                    except PyRaise as e:
+                        out.append(dict(raised=repr(e.exc), state=sname(obj.fields[h.names.state]), consulted=False, cached=False, refused=False, reason=None))
+                return out
+            try:
+                paths6 = [r for _, r in explore(go6, max_paths=400)]
+            except Imprecise as e:
+                raise AnchorError(f"probe history could not be interpreted: {e}")
+            for first, second in paths6:
+                n6 += 1
+                admitted = first["consulted"] or first["cached"]
+                if not admitted:
+                    continue          # still inside the recovery timeout: nothing is promised
+                if first["state"] != "OPEN" and second["refused"]:
+                    bad6.append(f"gate {g}: a probe ending in {kind} leaves the breaker {first['state']}, and the next request is answered {second['reason']} without consulting the agents")
+    key = "run ▸ an admitted probe never leaves the breaker half-open and refusing"
+    if bad6:
+        led.fail("C08-R6", key, where(runm_, runm_.node), sorted(set(bad6))[0], path=sorted(set(bad6))[:6],
+                 witness="trip the breaker, wait for the timeout, repeat a cached prompt, then send a fresh one: CIRCUIT_OPEN for ever")
+    else:
+        led.ok("C08-R6", key, where(runm_, runm_.node), f"{n6} two-request histories from OPEN over {len(G)} gates × 5 probe outcomes (cache on): after an admitted probe the next request is consulted unless the breaker re-opened")
 
     # ---------------- R5 the loop's own lock is never re-acquired while held (every request returns)
     from ..locks import LockAnalysis, regions
